@@ -259,12 +259,14 @@ def d6(ck: Check) -> None:
     fm = ck.prog.fm(CTRL, "successions_to_target")
     f = fm.f
     sdp = f.params()[0]
-    ps = [n for n in own_walk(f.node) if isinstance(n, ast.For) and "all_simple_paths" in text(n.iter)]
+    def iter_of(n):      # the iterated expression, also when it is first stored in a local
+        return fm.deref(n.iter, fm.cfg.loop_header[n]) if isinstance(n.iter, ast.Name) else n.iter
+    ps = [n for n in own_walk(f.node) if isinstance(n, ast.For) and "all_simple_paths" in text(iter_of(n))]
     probs = []
     if len(ps) != 1:
         raise AnalysisError("anchor vanished: path enumeration of successions_to_target")
     pl = ps[0]
-    call = next(c for c in ast.walk(pl.iter) if isinstance(c, ast.Call) and (dotted(c.func) or "").endswith("all_simple_paths"))
+    call = next(c for c in ast.walk(iter_of(pl)) if isinstance(c, ast.Call) and (dotted(c.func) or "").endswith("all_simple_paths"))
     kws = {k.arg: text(k.value) for k in call.keywords}
     args = [text(a) for a in call.args]
     endloop = [l for l in fm.cfg.enclosing_loops(fm.cfg.loop_header[pl]) if isinstance(l, ast.For)]
